@@ -224,6 +224,22 @@ pub fn get_parameter(scopes: &[Scope]) -> Result<(usize, usize), Error> {
     Ok((ty, param.index))
 }
 
+/// The provenance to record for a `$` access. `Provenance::Parameter` is resolved against the
+/// INNERMOST scope's parameter, so it denotes `$` only while every scope between here and the
+/// function scope received the enclosing parameter itself as its own parameter (`#T { { $ … } }`).
+/// Inside a block that was given some other value (`#T { A[1] { $ =q => … } }`) a match on `$`
+/// must not narrow the block's parameter, so the access is untracked there.
+pub fn function_parameter_provenance(scopes: &[Scope]) -> super::Provenance {
+    for scope in scopes.iter().rev() {
+        match &scope.parameter {
+            Some(_) if scope.kind == ScopeKind::Function => return super::Provenance::Parameter,
+            Some(param) if matches!(param.provenance, super::Provenance::Parameter) => continue,
+            _ => return super::Provenance::Unknown,
+        }
+    }
+    super::Provenance::Unknown
+}
+
 /// Get the function parameter (for $ operator).
 ///
 /// Walks up scopes to find the nearest Function scope's parameter.
